@@ -1,5 +1,75 @@
 package vtrie
 
-import "github.com/NethermindEth/juno/verifh/lib"
+import (
+	"fmt"
 
-func stateLayer(r *lib.Run) {}
+	"github.com/NethermindEth/juno/blockchain/networks"
+	"github.com/NethermindEth/juno/core"
+	"github.com/NethermindEth/juno/verifh/lib"
+	"github.com/NethermindEth/juno/verifh/lib/chain"
+)
+
+// stateLayer: whole-state commitments. Chains are finalised by a builder on one
+// backend and verified+stored by a node on the other (Store recomputes the root and
+// rejects a mismatch), and every block's GlobalStateRoot is compared with the
+// commitment of the abstract state computed from the protocol definition. The
+// temporary-trie commitments (tx / event / receipt) are recomputed with both
+// temporary-trie backends and must coincide.
+func stateLayer(r *lib.Run) {
+	n := r.N(40, 800)
+	r.Cases(n, 0, func(idx int) {
+		rng := lib.Rng("C01/state", uint64(idx))
+		g := chain.NewGen(rng, chain.Opts{})
+		builderNew := idx%2 == 1
+		b := chain.NewBuilder(builderNew)
+		other := chain.NewMemNode(!builderNew)
+		c := &chain.Chain{}
+		length := 6 + rng.IntN(10)
+		if err := g.Extend(c, b, length); err != nil {
+			r.Violation("state:finalise-error", idx, err.Error(), nil)
+			return
+		}
+		restartAt := rng.IntN(length)
+		for i, blk := range c.Blocks {
+			ver := blk.Block.ProtocolVersion
+			want, cr, clr := c.States[i].Commitment(ver)
+			r.Eval(1)
+			if !want.Equal(blk.Block.GlobalStateRoot) {
+				r.Violation(fmt.Sprintf("state-root-mismatch:builder-newstate=%v", builderNew), idx,
+					fmt.Sprintf("block %d (%s): backend newState=%v computed root %s, protocol definition gives %s (contracts %s classes %s)",
+						i, ver, builderNew, blk.Block.GlobalStateRoot, &want, &cr, &clr),
+					map[string]any{"block": i, "version": ver, "builderNewState": builderNew})
+				return
+			}
+			if err := other.StoreBlk(blk); err != nil {
+				r.Violation(fmt.Sprintf("state-root-disagreement:store-newstate=%v", !builderNew), idx,
+					fmt.Sprintf("block %d finalised by backend newState=%v is rejected by backend newState=%v: %v", i, builderNew, !builderNew, err),
+					map[string]any{"block": i, "version": ver})
+				return
+			}
+			if i == restartAt {
+				other.Restart(false) // drop all in-memory objects, reopen over the same store
+			}
+			// temporary tries: both backends must produce the same commitments and hash
+			h1, c1, e1 := core.BlockHash(blk.Block, blk.SU.StateDiff, &networks.Sepolia, nil, core.TrieBackend)
+			h2, c2, e2 := core.BlockHash(blk.Block, blk.SU.StateDiff, &networks.Sepolia, nil, core.DeprecatedTrieBackend)
+			r.Eval(2)
+			if e1 != nil || e2 != nil || !h1.Equal(&h2) || !c1.TransactionCommitment.Equal(c2.TransactionCommitment) ||
+				!c1.EventCommitment.Equal(c2.EventCommitment) || !c1.ReceiptCommitment.Equal(c2.ReceiptCommitment) ||
+				!h1.Equal(blk.Block.Hash) {
+				r.Violation("temp-trie-backends-disagree", idx, fmt.Sprintf("block %d: trie2-backed hash %s vs legacy-backed %s vs stored %s (errs %v %v)", i, &h1, &h2, blk.Block.Hash, e1, e2), nil)
+				return
+			}
+			r.Count("state_blocks_checked", 1)
+			if len(blk.Block.Transactions) > 0 {
+				r.Count("blocks_with_commitment_tries", 1)
+			}
+		}
+		st := c.TipState()
+		r.Case(fmt.Sprintf("state-%v-%d-%d-%s", builderNew, len(st.Contracts), len(st.Classes), c.Tip().Block.GlobalStateRoot))
+		if idx == 0 {
+			r.Sample(map[string]any{"state_chain_case": idx, "blocks": length, "builder_new_state": builderNew, "contracts": len(st.Contracts),
+				"classes": len(st.Classes), "final_root": c.Tip().Block.GlobalStateRoot.String(), "versions": []string{c.Blocks[0].Block.ProtocolVersion, c.Tip().Block.ProtocolVersion}})
+		}
+	})
+}
